@@ -148,10 +148,10 @@ def main(tier):
         "rule": "restore of an archive made by the real `cond archive`, damaged per %s, into prior states {empty, other "
                 "versions, same versions already recorded, unrecorded destination directory}, optionally after a restore "
                 "that was killed midway; then the same restore killed before each effectful C call (mkdir/open/unlink/"
-                "fork_exec/sqlite execute/commit...) - quick: sample of 6 points per case, thorough: all; distinct by per-step "
+                "fork_exec/sqlite execute/commit...) - quick: sample of 6 points per case, thorough: every 2nd (every 5th after a crashed restore or with a format-1 index); distinct by per-step "
                 "signature" % sorted({d[0] for d in DEFECTS}),
         "clauses_of_other_properties_seen": other,
-        "exhaustive": tier == "thorough",
+        "exhaustive": False,   # thorough: every 2nd (5th) kill point of every target restore, not every one
     })
     if t2:
         rep.add_sample({"steps": [[s["cmd"], s["exit"], s["crashed"]] for s in t2[0]["steps"]], "tag": crash_scns[0]["tag"]})
